@@ -661,9 +661,27 @@ func (c *FnCtx) shift(env *Env, op token.Token, l, r Val, n ast.Node) Val {
 }
 
 func (c *FnCtx) pow2(k string) string {
+	if lit, ok := parseIntLit(k); ok && lit.IsInt64() && lit.Int64() <= 4096 {
+		if lit.Sign() <= 0 {
+			return "1"
+		}
+		return pow2(int(lit.Int64())).String()
+	}
 	if !c.declSet["pow2"] {
 		c.declSet["pow2"] = true
-		c.decls = append(c.decls, "(define-fun-rec pow2 ((n Int)) Int (ite (<= n 0) 1 (* 2 (pow2 (- n 1)))))")
+		// 2^n as a table for 0 <= n <= 128 (every machine shift), an uninterpreted
+		// function with the facts needed for comparisons beyond that
+		// (declared, not defined: equal arguments give equal powers by congruence without
+		// expanding a 129-way case distinction; literal arguments are folded above)
+		c.decls = append(c.decls, "(declare-fun pow2 (Int) Int)",
+			"(assert (forall ((n Int)) (! (and (>= (pow2 n) 1) (=> (<= n 0) (= (pow2 n) 1)) (=> (> n 128) (> (pow2 n) "+pow2(128).String()+"))) :pattern ((pow2 n)))))")
+		var b strings.Builder
+		b.WriteString("(assert (and")
+		for k := 0; k <= 128; k++ {
+			fmt.Fprintf(&b, " (= (pow2 %d) %s)", k, pow2(k).String())
+		}
+		b.WriteString("))")
+		c.decls = append(c.decls, b.String())
 	}
 	return app("pow2", k)
 }
@@ -1306,6 +1324,13 @@ func (c *FnCtx) initOpaque(env *Env, addr string, t types.Type) {
 // assignConv converts v for assignment to a location of type t (interface boxing, nil).
 func (c *FnCtx) assignConv(env *Env, v Val, t types.Type) Val {
 	t = c.subst(t)
+	if _, isTP := t.(*types.TypeParam); isTP {
+		// unresolved type parameter (contract of a generic callee): keep the argument's own type
+		if isNilVal(v) {
+			return Val{T: "0", Typ: v.Typ}
+		}
+		return v
+	}
 	if isNilVal(v) {
 		return c.zero(t)
 	}
